@@ -181,7 +181,7 @@ func reencoding(tx *types.Transaction) string {
 	case high:
 		return "high-s"
 	case len(sigs) > 1:
-		return "reordered-or-extra-signers"
+		return "multisig-other-order-or-subset"
 	}
 	return "other"
 }
@@ -294,6 +294,13 @@ func scenario(c *run.Ctx, idx int, edge bool) {
 		return
 	}
 	e.stabilise(head)
+	// a multi-signature account: any two of three signers suffice, so the same signed content has several valid signature lists
+	msKeys := []fx.Key{fx.NewKey("c04-signer", 0), fx.NewKey("c04-signer", 1), fx.NewKey("c04-signer", 2)}
+	ms := w.Users[5]
+	if !honest(head.Time()+7, types.Transactions{B.ModifySigners(ms, ms.Addr, types.Signers{{Address: msKeys[0].Addr, Weight: 50}, {Address: msKeys[1].Addr, Weight: 50}, {Address: msKeys[2].Addr, Weight: 50}}, uint64(head.Time())+1500)}, "multisig setup") {
+		return
+	}
+	e.stabilise(head)
 	nBlocks := r.Range(25, 45)
 	if edge {
 		nBlocks = 34
@@ -317,6 +324,10 @@ func scenario(c *run.Ctx, idx int, edge bool) {
 				life = 1800
 			}
 			tx := B.Transfer(from, to, fx.LEMO(int64(seq)), uint64(t)+uint64(life))
+			if from.Addr == ms.Addr {
+				i := r.Intn(3)
+				tx = fx.Sign(B.Unsigned(params.OrdinaryTx, ms.Addr, &to, fx.LEMO(int64(seq)), 100000, nil, uint64(t)+uint64(life)), msKeys[i], msKeys[(i+1)%3])
+			}
 			switch r.Intn(6) {
 			case 0: // inside a box
 				txs = append(txs, B.Box(w.Users[r.Intn(len(w.Users))], types.Transactions{tx}, uint64(t)+uint64(life)))
@@ -391,6 +402,24 @@ func scenario(c *run.Ctx, idx int, edge bool) {
 			v, ok := vs[name]
 			if !ok {
 				v, name = old, "same-bytes"
+			}
+			if old.From() == ms.Addr && len(old.Sigs()) == 2 && r.Chance(1, 2) {
+				// the third signer signs the same content: another sufficient subset
+				f := fx.Fields(old)
+				f.Sigs = f.Sigs[:1]
+				unsigned := *f
+				unsigned.Sigs = nil
+				for _, k := range msKeys {
+					cand := fx.Sign(unsigned.MustTx(), k)
+					sg := fx.Fields(cand).Sigs[0]
+					if string(sg) != string(old.Sigs()[0]) && string(sg) != string(old.Sigs()[1]) {
+						f.Sigs = append(f.Sigs, sg)
+						break
+					}
+				}
+				if len(f.Sigs) == 2 {
+					v, name = f.MustTx(), "other-signer-subset"
+				}
 			}
 			age := "young"
 			if uint32(at) > incl[old.Hash()]+1700 {
